@@ -14,7 +14,7 @@ var (
 	changes           = `^([\d-]+)[\t\s]+([\d-]+)[\t\s]+(.*)`
 	complexMoveRegStr = `(.*)\{(.*)\s=>\s(.*)\}(.*)`
 	basicMoveRegStr   = `(.*)\s=>\s(.*)`
-	changeModel       = `\s(\w{1,6})\s(mode 100(\d){3})?\s?(.*)(\s\(\d{2}%\))?`
+	changeModel       = `\s(\w{1,6})\s(mode (\d){6})?\s?(.*)(\s\(\d{2}%\))?`
 
 	headerReg      = regexp.MustCompile(header)
 	revReg         = regexp.MustCompile(rev)
